@@ -210,17 +210,25 @@ def loop_body(fn, next_bb):
         if call_matches(t, ['alloc::vec::Vec::push', 'alloc::vec::Vec::extend_from_slice', 'alloc::vec::Vec::insert']):
             # pushing in hash order is fine only if the vector is stably sorted before anything else reads it
             vecs = set()
+            per_item = True
             for o in origins(fn, t['args'][0]):
                 if o.kind == 'call' and call_matches(o.term, ['alloc::vec::Vec::new', 'alloc::vec::Vec::with_capacity']):
                     vecs.add(o.term['d']['l'])
+                    per_item = per_item and o.bb in body
                 else:
                     vecs.add(None)
+                    per_item = False
+            if per_item and vecs:
+                # a vector made afresh for each item (the values of one header): its order is that of the one item's own values
+                continue
             if None in vecs or len(vecs) != 1:
                 return ('unclassified', 'loop over hash-ordered items pushes into a vector of unknown origin', b)
             pushed |= vecs
             continue
         if name in LOOP_BODY_OK or name in ('into_bytes', 'into_string', 'to_string'):
             continue
+        if call_matches(t, ['alloc::vec::Vec::new', 'alloc::vec::Vec::with_capacity', 'alloc::string::String::new']):
+            continue  # a fresh per-item buffer
         if any(m in ('format', 'format_args') for m in (t.get('x') or [])):
             continue  # building a string from one item
         if name in LOOP_LOOKUP_OK:
